@@ -309,3 +309,16 @@ CHECKS["C20"] = {
     "assumptions": FWD_ASSUME + ["go-version NewVersion/Compare replaced in the engine by Go-source models (overlays/go-version/version.go = the original file plus the models); the version harness is replayed natively against the real library",
                                  "OpenGtp5g, os.ReadFile, yaml.Unmarshal, govalidator.ValidateStruct replaced in the engine by recording/symbolic models; these two harnesses have no native replay (the real functions need the kernel module / the file system)"],
 }
+
+CHECKS["C07"] = {
+    "dep_overlays": NL_OV, "extra_pkgs": ["internal/forwarder", "internal/forwarder/perio"],
+    "jobs": {
+        "quick": [{"pkg": "internal/pfcp", "entries": ["ZZ_C07_*"], "witnesses": 4, "max_paths": 400000, "budget_s": 300, "max_concretize": 1024}],
+        "thorough": [{"pkg": "internal/pfcp", "entries": ["ZZ_C07_*"], "witnesses": 8, "max_paths": 4000000, "budget_s": 3000, "max_concretize": 4096}],
+    },
+    "covers": {"all": ["ZZ_C07_SweepEmpty:C07.sweep.done", "ZZ_C07_SweepGtp5g:C07.sweep.done"]},
+    "bounds": {"quick": "IE payload sweep through the real event loop (PfcpServer.main + receiver as coroutines, marshalled datagrams) after an association and a bystander session: for each of 39 leaf IE types that go-upf or the gtp5g driver decodes (Node ID, F-SEID, and the children of Create/Update PDR, PDI, FAR, Forwarding Parameters, QER, URR, BAR) one IE with a symbolic payload of every length 0..nominal+2 inside an otherwise well-formed Establishment and a following Modification, with the no-op driver and with the gtp5g driver on the simulated kernel; afterwards a Heartbeat must be answered and the bystander intact. SDF Filter: flow-description octets ASCII; FD length field <= payload length or >= 256",
+               "thorough": "same with the SDF Filter FD length field unconstrained (every feasible value up to the buffer capacity is a path)"},
+    "outside": "datagrams that do not parse as a PFCP message of a known type (raw-byte envelope fuzzing of go-pfcp's message.Parse is not covered by this check); several malformed IEs in one message; non-ASCII flow-description text; header-SEID addressing is decided under C04 (ZZ_C04_ModifyHeader / DeleteHeader with an unconstrained 64-bit SEID)",
+    "assumptions": PFCP_ASSUME + FWD_ASSUME,
+}
